@@ -1145,3 +1145,73 @@ def big_walk_cases(n=1001, sizes=(1000, 1001, 5000, 2147483647), prefix="pgbig")
                 tok = hx(token_of((k + 1) * eff))
         cases.append(("%s-s%d" % (prefix, size), ops))
     return cases
+
+
+def push_hang_cases(prefix="phq"):
+    """Two or three messages in one push pass, one of them answered with an accepted status at once, another never
+    answered (the pass is abandoned after 20 s, its lease has run out by then): in the following passes the accepted
+    one must not be POSTed again, the unanswered one must."""
+    T, P0 = hx(tname("p", "t")), hx(sname("p", "push0"))
+    cases = []
+    for i, script in enumerate((["200", "hang"], ["hang", "204"], ["200", "hang", "500"])):
+        k = len(script)
+        msgs = " ".join("%s 0" % hx("m%d" % j) for j in range(k))
+        ops = ["MODE push", "SEED %d" % i, "CT " + T, "CS %s %s 10 %s" % (P0, T, hx("http://ep/e0")),
+               "EP 0 %d %s" % (k, " ".join(script)), "PUB %s %d %s" % (T, k, msgs), "ROUND", "STATS " + P0, "ROUND",
+               "STATS " + P0, "ROUND", "STATS " + P0]
+        cases.append(("%s%d" % (prefix, i), ops))
+    return cases
+
+
+def modify_batch_cases(prefix="mb"):
+    """Three leases handed out together; ONE StreamingPull control message modifies two or three of them with a
+    different number of seconds each (shortening, extending, nacking, in every order); then the clock passes every
+    deadline involved, with the stream read and the state printed at each."""
+    import itertools
+    T, Sn = hx(tname("p", "t")), hx(sname("p", "s"))
+    cases = []
+    n = 0
+    for ids in list(itertools.permutations(["^0", "^1", "^2"], 2)) + list(itertools.permutations(["^0", "^1", "^2"], 3)):
+        for secs in itertools.product([0, 5, 12, 30], repeat=len(ids)):
+            if len(set(secs)) == 1:
+                continue
+            ops = ["SEED %d" % (n % 11), "CT " + T, "CS %s %s 10 ~" % (Sn, T), "PUB %s 3 61 0 62 0 63 0" % T,
+                   "SO 1 %s 10 0 10" % Sn, "SR 1", "ADV %d" % (1000 * MS),
+                   "SS 1 - 0 0 0 %d %s %d %s" % (len(ids), " ".join(ids), len(secs), " ".join(map(str, secs))),
+                   "SR 1", "STATS " + Sn]
+            for adv in (5100, 5000, 3000, 8000, 10100, 12000):
+                ops += ["ADV %d" % (adv * MS), "SR 1", "STATS " + Sn]
+            cases.append(("%s%d" % (prefix, n), ops))
+            n += 1
+    return cases
+
+
+def big_chain_cases(prefix="bc"):
+    """Two blocked Pulls (limit 10) and one Publish that brings the backlog to 2^16 or just above: the first Pull
+    leaves messages behind, so the second must be woken as well."""
+    T, Sn = hx(tname("p", "t")), hx(sname("p", "s"))
+    cases = []
+    for n in (65535, 65536, 65537, 65546, 131072, 131077):
+        ops = ["SEED 1", "CT " + T, "CS %s %s 10 ~" % (Sn, T), "BG 900 PULL %s 10 0" % Sn, "Q", "BG 901 PULL %s 10 0" % Sn, "Q"]
+        left = n
+        # one Publish call (the server takes any size)
+        ops += ["PUBN %s %d 78" % (T, n), "Q", "STATS " + Sn, "JOIN 900", "JOIN 901", "STATS " + Sn]
+        cases.append(("%s-%d" % (prefix, n), ops))
+    return cases
+
+
+def pull_limit_cases(prefix="pl300"):
+    """A blocked Pull that is woken by availability events which bring nothing for it (an empty Publish) must still
+    return when its 300 s limit has passed."""
+    T, Sn = hx(tname("p", "t")), hx(sname("p", "s"))
+    cases = []
+    for gap in (100, 240, 299):
+        ops = ["SEED %d" % gap, "CT " + T, "CS %s %s 10 ~" % (Sn, T), "BG 100 PULL %s 5 0" % Sn, "Q"]
+        t = 0
+        while t + gap < 300:
+            ops += ["ADV %d" % (gap * S), "PUB %s 0" % T, "JOIN 100"]
+            t += gap
+        ops += ["ADV %d" % ((300 - t) * S - MS), "JOIN 100", "ADV %d" % (2 * MS), "JOIN 100", "PUB %s 0" % T,
+                "ADV %d" % (gap * S), "JOIN 100", "STATS " + Sn]
+        cases.append(("%s-%d" % (prefix, gap), ops))
+    return cases
